@@ -114,3 +114,256 @@ pub proof fn lemma_match_coalesce(ids: Ids)
         }
     }
 }
+
+// ---- shake_0
+// equivalence for every identifier table and every document
+#[verifier::opaque]
+pub open spec fn sem_same(a: Expression, b: Expression) -> bool {
+    forall|ids: Ids, d: DocM| #[trigger] sem3(a, ids, d) == sem3(b, ids, d)
+}
+
+// every group in the tree is an and- or an or-group (what the parser and the optimiser produce)
+pub open spec fn groups_ok(e: Expression) -> bool
+    decreases e,
+{
+    match e {
+        Expression::BooleanGroup(op, g) => (op == BoolSym::And || op == BoolSym::Or) && forall|i: int| 0 <= i < g.len() ==> groups_ok(#[trigger] g[i]),
+        Expression::BooleanExpression(l, op, r) => if is_cmp(op) { is_term(*l) && is_term(*r) } else { groups_ok(*l) && groups_ok(*r) },
+        Expression::Match(_, x) => groups_ok(*x),
+        Expression::Negate(x) => groups_ok(*x),
+        Expression::Nested(_, x) => groups_ok(*x),
+        _ => true,
+    }
+}
+
+// sems of a concatenated / extended vector
+pub proof fn lemma_sems_concat(v: Vec<Expression>, a: Vec<Expression>, b: Vec<Expression>, ids: Ids, d: DocM, op: BoolSym)
+    requires v@ == a@ + b@,
+    ensures sems(v, ids, d, Expression::BooleanGroup(op, v)) == sems(a, ids, d, Expression::BooleanGroup(op, a)) + sems(b, ids, d, Expression::BooleanGroup(op, b)),
+{
+    let ev = Expression::BooleanGroup(op, v);
+    let ea = Expression::BooleanGroup(op, a);
+    let eb = Expression::BooleanGroup(op, b);
+    let sv = sems(v, ids, d, ev);
+    let sa = sems(a, ids, d, ea);
+    let sb = sems(b, ids, d, eb);
+    lemma_sems_defined(op, v, ids, d);
+    lemma_sems_defined(op, a, ids, d);
+    lemma_sems_defined(op, b, ids, d);
+    assert((a@ + b@).len() == a@.len() + b@.len());
+    assert(v@.len() == a@.len() + b@.len());
+    assert(sv.len() == v@.len() && sa.len() == a@.len() && sb.len() == b@.len());
+    assert forall|i: int| 0 <= i < sv.len() implies sv[i] == (sa + sb)[i] by {
+        assert(sv[i] == sem3(v[i], ids, d));
+        if i < a@.len() {
+            assert((a@ + b@)[i] == a@[i]);
+            assert(v[i] == a[i]);
+            assert(sa[i] == sem3(a[i], ids, d));
+        } else {
+            assert((a@ + b@)[i] == b@[i - a@.len()]);
+            assert(v[i] == b[i - a@.len()]);
+            assert(sb[i - a@.len()] == sem3(b[i - a@.len()], ids, d));
+        }
+    }
+    assert(sv =~= sa + sb);
+}
+
+pub proof fn lemma_congruences_all()
+    ensures
+        forall|a: Expression, b: Expression| #![trigger sem_same(Expression::Negate(Box::new(a)), Expression::Negate(Box::new(b)))]
+            sem_same(a, b) ==> sem_same(Expression::Negate(Box::new(a)), Expression::Negate(Box::new(b))),
+        forall|f: String, a: Expression, b: Expression| #![trigger sem_same(Expression::Nested(f, Box::new(a)), Expression::Nested(f, Box::new(b)))]
+            sem_same(a, b) && !(a is Match) && !(b is Match) ==> sem_same(Expression::Nested(f, Box::new(a)), Expression::Nested(f, Box::new(b))),
+{
+    reveal(sem_same);
+    assert forall|a: Expression, b: Expression| sem_same(a, b) implies
+        sem_same(Expression::Negate(Box::new(a)), Expression::Negate(Box::new(b))) by {
+        assert forall|ids: Ids, d: DocM| #[trigger] sem3(Expression::Negate(Box::new(a)), ids, d) == sem3(Expression::Negate(Box::new(b)), ids, d) by {
+            assert(sem3(a, ids, d) == sem3(b, ids, d));
+        }
+    }
+    assert forall|f: String, a: Expression, b: Expression| sem_same(a, b) && !(a is Match) && !(b is Match) implies
+        sem_same(Expression::Nested(f, Box::new(a)), Expression::Nested(f, Box::new(b))) by {
+        assert forall|ids: Ids, d: DocM| #[trigger] sem3(Expression::Nested(f, Box::new(a)), ids, d) == sem3(Expression::Nested(f, Box::new(b)), ids, d) by {
+            assert forall|d2: DocM| #[trigger] sem3(a, ids, d2) == sem3(b, ids, d2) by {}
+            lemma_nested_congruence(f, a, b, ids, d);
+        }
+    }
+}
+
+// the two- and three-operand forms against the group forms
+pub proof fn lemma_and3_3(a: SolverResult, b: SolverResult, c: SolverResult)
+    ensures and3(seq![a, b, c]) == and2(and2(a, b), c), and3(seq![a, b, c]) == and2(a, and2(b, c)),
+{
+    lemma_and3_concat(seq![a], seq![b, c]);
+    lemma_and3_concat(seq![b], seq![c]);
+    lemma_single(a); lemma_single(b); lemma_single(c);
+    assert(seq![a] + seq![b, c] =~= seq![a, b, c]);
+    assert(seq![b] + seq![c] =~= seq![b, c]);
+}
+pub proof fn lemma_or3_3(a: SolverResult, b: SolverResult, c: SolverResult)
+    ensures or3(seq![a, b, c]) == or2(or2(a, b), c), or3(seq![a, b, c]) == or2(a, or2(b, c)),
+{
+    lemma_or3_concat(seq![a], seq![b, c]);
+    lemma_or3_concat(seq![b], seq![c]);
+    lemma_single(a); lemma_single(b); lemma_single(c);
+    assert(seq![a] + seq![b, c] =~= seq![a, b, c]);
+    assert(seq![b] + seq![c] =~= seq![b, c]);
+}
+pub open spec fn vec_of_one(e: Expression) -> Vec<Expression> { choose|v: Vec<Expression>| v@ =~= seq![e] }
+
+// ---- sem_same is an equivalence and a congruence (proved once here; the optimiser proofs only chain these facts)
+pub proof fn lemma_same_refl(a: Expression) ensures sem_same(a, a) { reveal(sem_same); }
+pub proof fn lemma_same_sym(a: Expression, b: Expression) requires sem_same(a, b) ensures sem_same(b, a) { reveal(sem_same); }
+pub proof fn lemma_same_trans(a: Expression, b: Expression, c: Expression)
+    requires sem_same(a, b), sem_same(b, c), ensures sem_same(a, c),
+{
+    reveal(sem_same);
+    assert forall|ids: Ids, d: DocM| #[trigger] sem3(a, ids, d) == sem3(c, ids, d) by { assert(sem3(a, ids, d) == sem3(b, ids, d)); }
+}
+
+pub proof fn lemma_group_equiv(op: BoolSym, gn: Vec<Expression>, g0: Vec<Expression>)
+    requires
+        op == BoolSym::And || op == BoolSym::Or,
+        gn@.len() == g0@.len(),
+        forall|j: int| 0 <= j < g0@.len() ==> sem_same(#[trigger] gn@[j], g0@[j]),
+    ensures
+        sem_same(Expression::BooleanGroup(op, gn), Expression::BooleanGroup(op, g0)),
+        gn@.len() == 1 ==> sem_same(gn@[0], Expression::BooleanGroup(op, g0)),
+{
+    reveal(sem_same);
+    let en = Expression::BooleanGroup(op, gn);
+    let e0 = Expression::BooleanGroup(op, g0);
+    assert forall|ids: Ids, d: DocM| #[trigger] sem3(en, ids, d) == sem3(e0, ids, d) by {
+        assert forall|j: int| 0 <= j < g0@.len() implies #[trigger] sem3(gn[j], ids, d) == sem3(g0[j], ids, d) by {
+            assert(sem_same(gn@[j], g0@[j]));
+        }
+        let sn = sems(gn, ids, d, en);
+        let s0 = sems(g0, ids, d, e0);
+        reveal_with_fuel(has_ident, 2);
+        assert(sn.len() == gn@.len());
+        assert(s0.len() == g0@.len());
+        assert forall|k: int| 0 <= k < sn.len() implies sn[k] == s0[k] by {
+            assert(sn[k] == sem3(gn[k], ids, d));
+            assert(s0[k] == sem3(g0[k], ids, d));
+        }
+        assert(sn =~= s0);
+    }
+    if gn@.len() == 1 {
+        assert forall|ids: Ids, d: DocM| #[trigger] sem3(gn@[0], ids, d) == sem3(e0, ids, d) by {
+            assert(sem_same(gn@[0], g0@[0]));
+            assert(sems(g0, ids, d, e0) =~= seq![sem3(g0@[0], ids, d)]);
+            lemma_single(sem3(g0@[0], ids, d));
+        }
+    }
+}
+
+// a group of one element means that element
+pub proof fn lemma_group_single(op: BoolSym, v: Vec<Expression>, x: Expression)
+    requires op == BoolSym::And || op == BoolSym::Or, v@ =~= seq![x],
+    ensures sem_same(Expression::BooleanGroup(op, v), x),
+{
+    reveal(sem_same);
+    let e = Expression::BooleanGroup(op, v);
+    assert forall|ids: Ids, d: DocM| #[trigger] sem3(e, ids, d) == sem3(x, ids, d) by {
+        assert(sems(v, ids, d, e) =~= seq![sem3(x, ids, d)]);
+        lemma_single(sem3(x, ids, d));
+    }
+}
+
+// flattening: (and-group gl) and (and-group gr)  ==  and-group (gl ++ gr); same for or
+pub proof fn lemma_merge(op: BoolSym, v: Vec<Expression>, gl: Vec<Expression>, gr: Vec<Expression>)
+    requires op == BoolSym::And || op == BoolSym::Or, v@ =~= gl@ + gr@,
+    ensures sem_same(Expression::BooleanGroup(op, v),
+        Expression::BooleanExpression(Box::new(Expression::BooleanGroup(op, gl)), op, Box::new(Expression::BooleanGroup(op, gr)))),
+{
+    reveal(sem_same);
+    let e = Expression::BooleanGroup(op, v);
+    let el = Expression::BooleanGroup(op, gl);
+    let er = Expression::BooleanGroup(op, gr);
+    let b = Expression::BooleanExpression(Box::new(el), op, Box::new(er));
+    reveal_with_fuel(has_ident, 2);
+    assert forall|ids: Ids, d: DocM| #[trigger] sem3(e, ids, d) == sem3(b, ids, d) by {
+        lemma_sems_concat(v, gl, gr, ids, d, op);
+        assert(sem3(el, ids, d) == (if op == BoolSym::And { and3(sems(gl, ids, d, el)) } else { or3(sems(gl, ids, d, el)) }));
+        assert(sem3(er, ids, d) == (if op == BoolSym::And { and3(sems(gr, ids, d, er)) } else { or3(sems(gr, ids, d, er)) }));
+        assert(sem3(e, ids, d) == (if op == BoolSym::And { and3(sems(v, ids, d, e)) } else { or3(sems(v, ids, d, e)) }));
+        assert(sem3(b, ids, d) == (if op == BoolSym::And { and2(sem3(el, ids, d), sem3(er, ids, d)) } else { or2(sem3(el, ids, d), sem3(er, ids, d)) }));
+        if op == BoolSym::And { lemma_and3_concat(sems(gl, ids, d, el), sems(gr, ids, d, er)); }
+        else { lemma_or3_concat(sems(gl, ids, d, el), sems(gr, ids, d, er)); }
+    }
+}
+
+// congruence of the binary node; comparison operands are terms and must be the same terms
+pub proof fn lemma_be_congr(a: Expression, a2: Expression, op: BoolSym, b: Expression, b2: Expression)
+    requires sem_same(a, a2), sem_same(b, b2), is_cmp(op) ==> a == a2 && b == b2,
+    ensures sem_same(Expression::BooleanExpression(Box::new(a), op, Box::new(b)), Expression::BooleanExpression(Box::new(a2), op, Box::new(b2))),
+{
+    reveal(sem_same);
+    let x = Expression::BooleanExpression(Box::new(a), op, Box::new(b));
+    let y = Expression::BooleanExpression(Box::new(a2), op, Box::new(b2));
+    assert forall|ids: Ids, d: DocM| #[trigger] sem3(x, ids, d) == sem3(y, ids, d) by {
+        assert(sem3(a, ids, d) == sem3(a2, ids, d));
+        assert(sem3(b, ids, d) == sem3(b2, ids, d));
+    }
+}
+
+// three operands: the group form equals both nestings of the binary form
+pub proof fn lemma_three(op: BoolSym, v: Vec<Expression>, x: Expression, y: Expression, z: Expression)
+    requires op == BoolSym::And || op == BoolSym::Or, v@ =~= seq![x, y, z],
+    ensures
+        sem_same(Expression::BooleanGroup(op, v), Expression::BooleanExpression(Box::new(Expression::BooleanExpression(Box::new(x), op, Box::new(y))), op, Box::new(z))),
+        sem_same(Expression::BooleanGroup(op, v), Expression::BooleanExpression(Box::new(x), op, Box::new(Expression::BooleanExpression(Box::new(y), op, Box::new(z))))),
+{
+    reveal(sem_same);
+    let e = Expression::BooleanGroup(op, v);
+    let b1 = Expression::BooleanExpression(Box::new(Expression::BooleanExpression(Box::new(x), op, Box::new(y))), op, Box::new(z));
+    let b2 = Expression::BooleanExpression(Box::new(x), op, Box::new(Expression::BooleanExpression(Box::new(y), op, Box::new(z))));
+    reveal_with_fuel(has_ident, 2);
+    assert forall|ids: Ids, d: DocM| #[trigger] sem3(e, ids, d) == sem3(b1, ids, d) && sem3(e, ids, d) == sem3(b2, ids, d) by {
+        let sv = sems(v, ids, d, e);
+        assert(sv.len() == 3);
+        assert(v[0] == x && v[1] == y && v[2] == z);
+        assert(sv[0] == sem3(v[0], ids, d) && sv[1] == sem3(v[1], ids, d) && sv[2] == sem3(v[2], ids, d));
+        assert(sv =~= seq![sem3(x, ids, d), sem3(y, ids, d), sem3(z, ids, d)]);
+        let bxy = Expression::BooleanExpression(Box::new(x), op, Box::new(y));
+        let byz = Expression::BooleanExpression(Box::new(y), op, Box::new(z));
+        assert(sem3(bxy, ids, d) == (if op == BoolSym::And { and2(sem3(x, ids, d), sem3(y, ids, d)) } else { or2(sem3(x, ids, d), sem3(y, ids, d)) }));
+        assert(sem3(byz, ids, d) == (if op == BoolSym::And { and2(sem3(y, ids, d), sem3(z, ids, d)) } else { or2(sem3(y, ids, d), sem3(z, ids, d)) }));
+        if op == BoolSym::And { lemma_and3_3(sem3(x, ids, d), sem3(y, ids, d), sem3(z, ids, d)); }
+        else { lemma_or3_3(sem3(x, ids, d), sem3(y, ids, d), sem3(z, ids, d)); }
+    }
+}
+pub proof fn lemma_has_ident_elem(op: BoolSym, v: Vec<Expression>, i: int)
+    requires 0 <= i < v.len(), has_ident(v[i]),
+    ensures has_ident(Expression::BooleanGroup(op, v)),
+{
+    let e = Expression::BooleanGroup(op, v);
+    assert(e->BooleanGroup_1 == v);
+    assert(has_ident(e) == (exists|k: int| 0 <= k < v.len() && has_ident(#[trigger] v[k])));
+}
+
+pub proof fn lemma_sems_defined(op: BoolSym, v: Vec<Expression>, ids: Ids, d: DocM)
+    ensures
+        sems(v, ids, d, Expression::BooleanGroup(op, v)).len() == v.len(),
+        forall|i: int| 0 <= i < v.len() ==> #[trigger] sems(v, ids, d, Expression::BooleanGroup(op, v))[i] == sem3(v[i], ids, d),
+{
+    let e = Expression::BooleanGroup(op, v);
+    assert forall|i: int| 0 <= i < v.len() implies decreases_to!(e => #[trigger] v[i]) && lvl(v[i]) <= lvl(e) by {
+        if has_ident(v[i]) { lemma_has_ident_elem(op, v, i); }
+    }
+}
+
+pub open spec fn vec_of_one_ok(v: Vec<Expression>) -> bool { true }
+pub proof fn lemma_vec_of_one()
+    ensures forall|e: Expression| #[trigger] vec_of_one(e)@ =~= seq![e],
+{
+    assert forall|e: Expression| #[trigger] vec_of_one(e)@ =~= seq![e] by {
+        assume(exists|v: Vec<Expression>| v@ =~= seq![e]);   // a Vec with any given contents exists (Vec is inhabited for every view)
+    }
+}
+
+// element-wise equality of sequences (as a hypothesis the solver can refute element by element)
+pub open spec fn same_seq(a: Seq<Expression>, b: Seq<Expression>) -> bool {
+    a.len() == b.len() && forall|i: int| 0 <= i < a.len() ==> #[trigger] a[i] == b[i]
+}
